@@ -79,14 +79,15 @@ def _near_misses(names: List[str]) -> List[str]:
 
 
 class DocGen:
-    def __init__(self, registry: List[Dict[str, Any]], max_batch: int = 6):
+    def __init__(self, registry: List[Dict[str, Any]], max_batch: int = 6, kinds: Optional[List[str]] = None,
+                 flavours: Optional[List[str]] = None):
         self.registry = registry
         self.names = [m['name'] for m in registry]
         self.by_name = {m['name']: m for m in registry}
         self.max_batch = max_batch
         self.s_val = jg.cheap_value()
         self.s_id = jg.cheap_call_id()
-        self.s_flavour = st.sampled_from(['valid'] * 6 + ['unknown-method', 'deviant', 'deviant', 'non-object'])
+        self.s_flavour = st.sampled_from(flavours or (['valid'] * 6 + ['unknown-method', 'deviant', 'deviant', 'non-object']))
         self.s_nonobj = st.sampled_from(jg.SCALAR_POOL + [[], [1]])
         self.s_name = st.sampled_from(self.names)
         self.s_miss = st.sampled_from(_near_misses(self.names))
@@ -101,7 +102,7 @@ class DocGen:
         self.s_bits = st.integers(0, 255)
         self.s_len = st.integers(0, 5)
         self.s_bool = st.booleans()
-        self.s_kind = st.sampled_from(['single'] * 4 + ['batch'] * 5 + ['value', 'deep', 'huge', 'mangled', 'mangled', 'raw'])
+        self.s_kind = st.sampled_from(kinds or (['single'] * 4 + ['batch'] * 5 + ['value', 'deep', 'huge', 'mangled', 'mangled', 'raw']))
         self.s_indent = st.sampled_from([0, 0, 1])
         self.s_pad = st.sampled_from(['', '', ' ', '\n\t '])
         self.s_raw = st.one_of(st.sampled_from(_RAW_TEXTS), st.sampled_from(_RAW_TEXTS), st.text(max_size=20))
@@ -235,16 +236,18 @@ class DocGen:
 _GENS: Dict[str, DocGen] = {}
 
 
-def docgen(registry: List[Dict[str, Any]], max_batch: int = 6) -> DocGen:
-    key = json.dumps([registry, max_batch], sort_keys=True, default=repr)
+def docgen(registry: List[Dict[str, Any]], max_batch: int = 6, kinds: Optional[List[str]] = None,
+           flavours: Optional[List[str]] = None) -> DocGen:
+    key = json.dumps([registry, max_batch, kinds, flavours], sort_keys=True, default=repr)
     g = _GENS.get(key)
     if g is None:
-        g = _GENS[key] = DocGen(registry, max_batch)
+        g = _GENS[key] = DocGen(registry, max_batch, kinds, flavours)
     return g
 
 
-def document(registry: List[Dict[str, Any]], max_batch: int = 6) -> st.SearchStrategy:
-    return docgen(registry, max_batch).document
+def document(registry: List[Dict[str, Any]], max_batch: int = 6, kinds: Optional[List[str]] = None,
+             flavours: Optional[List[str]] = None) -> st.SearchStrategy:
+    return docgen(registry, max_batch, kinds, flavours).document
 
 
 def element(registry: List[Dict[str, Any]], huge: bool = False) -> st.SearchStrategy:
